@@ -36,9 +36,12 @@ type uiCfg struct {
 	disp int // 0 absent, 1 ok, 2 returns error
 	req  int // 0 absent, 1 ok, 2 returns error
 	conf int // 0 absent, 1 yes, 2 no, 3 returns error
+	ans  int // which of the answers RequestValue returns
 }
 
-func (u uiCfg) String() string { return fmt.Sprintf("disp%d/req%d/conf%d", u.disp, u.req, u.conf) }
+func (u uiCfg) String() string {
+	return fmt.Sprintf("disp%d/req%d/conf%d/ans%d", u.disp, u.req, u.conf, u.ans)
+}
 
 type uiCall struct {
 	Kind   string // msg, request, confirm, wait
@@ -49,7 +52,25 @@ type uiCall struct {
 	No     string
 }
 
-const requestAnswer = "the-answer \x00\xff with bytes"
+// what the user types is the plugin's business: the reply must carry it
+// byte for byte, white space, control bytes and length included
+var answers = []string{
+	"the-answer \x00\xff with bytes",
+	" leading space",
+	"trailing space ",
+	"trailing newline\n",
+	"\ttabs around\t",
+	"  ",
+	"",
+	"\r\n",
+	strings.Repeat("0123456789abcdef", 3), // exactly one full body line
+	strings.Repeat("long \xfe\x80 answer ", 12) + " ",
+	"pin 1234\r",
+	"\u00a0no-break spaces\u2003",
+	"\x00leading NUL",
+	"\n-> looks like a stanza\n--- x\n",
+	"\x85\x0b\x0c",
+}
 
 func buildUI(u uiCfg, log *[]uiCall, mu *sync.Mutex, withTimer bool) *plugin.ClientUI {
 	ui := &plugin.ClientUI{}
@@ -69,7 +90,7 @@ func buildUI(u uiCfg, log *[]uiCall, mu *sync.Mutex, withTimer bool) *plugin.Cli
 			if u.req == 2 {
 				return "", errors.New("request failed")
 			}
-			return requestAnswer, nil
+			return answers[u.ans], nil
 		}
 	}
 	if u.conf != 0 {
@@ -293,7 +314,7 @@ func step(machine int, u uiCfg, s *mstate, m msg) (rep expectReply, call *uiCall
 		if u.req == 2 {
 			return fail, c, nil
 		}
-		return expectReply{constrained: true, typ: "ok", body: []byte(requestAnswer)}, c, nil
+		return expectReply{constrained: true, typ: "ok", body: []byte(answers[u.ans])}, c, nil
 	case "confirm":
 		if len(m.args) != 1 && len(m.args) != 2 {
 			return expectReply{}, nil, final("error")
@@ -370,7 +391,7 @@ var allUI = func() []uiCfg {
 	for d := 0; d < 3; d++ {
 		for q := 0; q < 3; q++ {
 			for c := 0; c < 4; c++ {
-				out = append(out, uiCfg{d, q, c})
+				out = append(out, uiCfg{d, q, c, 0})
 			}
 		}
 	}
@@ -442,7 +463,7 @@ func main() {
 		rec = func(prefix []msg) {
 			// prune: if the model already ended inside the prefix, stop
 			if len(prefix) > 0 {
-				c := &conv{machine: machine, ui: uiCfg{1, 1, 1}, msgs: prefix}
+				c := &conv{machine: machine, ui: uiCfg{1, 1, 1, 0}, msgs: prefix}
 				// pruning must hold for every UI config: finals that depend on
 				// the configuration only arise from "any", which we keep
 				if _, _, fin, _ := modelRun(c); fin != nil && fin.kind != "any" {
@@ -484,10 +505,12 @@ func main() {
 		ms = append(ms, terminals[rng.Intn(len(terminals))])
 		convs = append(convs, &conv{machine: machine, msgs: ms})
 	}
+	answerConvs := 0
 	// assign UI configurations, construction variants and delivery modes
 	for i, c := range convs {
 		c.id = i
 		c.ui = allUI[(i*7+i/len(allUI))%len(allUI)]
+		c.ui.ans = (i / 3) % len(answers)
 		if c.machine == recipientMachine && i%5 == 3 {
 			c.viaIdent = true
 		}
@@ -504,7 +527,18 @@ func main() {
 				continue
 			}
 			for _, u := range allUI {
+				u.ans = len(convs) % len(answers)
 				convs = append(convs, &conv{machine: machine, ui: u, msgs: []msg{m, terminals[0]}, id: len(convs)})
+			}
+			// every answer through every request message, alone and twice in a row
+			if strings.HasPrefix(m.typ, "request-") {
+				for a := range answers {
+					for _, ms := range [][]msg{{m, terminals[0]}, {m, m, terminals[0]}} {
+						convs = append(convs, &conv{machine: machine, ui: uiCfg{1, 1, 1, a}, msgs: ms, id: len(convs),
+							bytewise: a%5 == 1, burst: a%5 == 2 && len(ms) > 2})
+						answerConvs++
+					}
+				}
 			}
 		}
 	}
@@ -516,7 +550,12 @@ func main() {
 		if i%2 == 1 {
 			m, mach = identityAlphabet()[0], identityMachine
 		}
-		convs = append(convs, &conv{machine: mach, ui: uiCfg{1, 1, 1}, msgs: []msg{m, terminals[0]}, timer: true, id: len(convs)})
+		convs = append(convs, &conv{machine: mach, ui: uiCfg{1, 1, 1, 0}, msgs: []msg{m, terminals[0]}, timer: true, id: len(convs)})
+	}
+	r.Set("request_answers_in_alphabet", len(answers))
+	r.Set("conversations_answer_x_request_message", answerConvs)
+	if answerConvs == 0 {
+		r.Inconclusive("no request message was driven with the answer alphabet")
 	}
 	r.Set("exhaustive_depth_nonterminal_messages", depth)
 	r.Set("exhaustive_conversations", exhaustiveCount)
@@ -1028,7 +1067,7 @@ func fuzzStreams(r *mon.Run, env *plug.Env, names []string) {
 				c := cases[i]
 				name := names[w]
 				env.SetScript(name, &plug.Script{Steps: []plug.Step{{Send: c.raw, NoReply: true}}, End: c.end})
-				ui := buildUI(uiCfg{1, 1, 1}, &[]uiCall{}, &sync.Mutex{}, false)
+				ui := buildUI(uiCfg{1, 1, 1, 0}, &[]uiCall{}, &sync.Mutex{}, false)
 				done := make(chan callResult, 1)
 				go func() {
 					defer func() {
@@ -1102,7 +1141,7 @@ func afterFailedPhase1(r *mon.Run, env *plug.Env) {
 	for i := 0; i < n; i++ {
 		// A: the plugin exits without reading anything
 		env.SetScript(quit, &plug.Script{SkipPhase: true, End: "exit"})
-		ui := buildUI(uiCfg{1, 1, 1}, &[]uiCall{}, &sync.Mutex{}, false)
+		ui := buildUI(uiCfg{1, 1, 1, 0}, &[]uiCall{}, &sync.Mutex{}, false)
 		idA, err := plugin.NewIdentity(refage.Bech32Encode("AGE-PLUGIN-"+strings.ToUpper(quit)+"-", []byte{byte(i)}), ui)
 		if err != nil {
 			r.Inconclusive("afterFailedPhase1: %v", err)
@@ -1114,7 +1153,7 @@ func afterFailedPhase1(r *mon.Run, env *plug.Env) {
 		}
 		env.Transcript(quit)
 		// B: an ordinary conversation right after, alternately on either machine
-		c := &conv{machine: i % 2, ui: uiCfg{1, 1, 1}, id: 900000 + i}
+		c := &conv{machine: i % 2, ui: uiCfg{1, 1, 1, 0}, id: 900000 + i}
 		if c.machine == recipientMachine {
 			c.msgs = []msg{recipientAlphabet()[0], terminals[0]}
 		} else {
